@@ -12,6 +12,7 @@ import (
 	"runtime"
 	"strings"
 	"sync/atomic"
+	"time"
 
 	http "github.com/bfenetworks/bfe/bfe_http"
 	"github.com/bfenetworks/bfe/bfe_spdy"
@@ -316,8 +317,17 @@ var c39Modes = []string{"whole", "chunks", "one-byte"}
 
 var c39Forbidden = []string{"connection", "host", "keep-alive", "proxy-connection", "transfer-encoding"}
 
-// names whose Unicode lower-casing has a different byte length
-var c39LenChanging = []string{"İ", "x-K", "Ωm", "Ⱥ", "ẞ-x", "caf\xe9", "\xff", "x\xc3"}
+// Names whose Unicode lower-casing has a different byte length. A reader that
+// is handed such a frame by today's writer sees a length prefix that disagrees
+// with the bytes and goes on to interpret content bytes as lengths. With the
+// shrinking names (and one short value, nothing after it) the bogus length is
+// at most 2^24 and exceeds what is left, so the read ends with an error; these
+// run in-process. With the growing names the bogus length is 2^31-scale:
+// those sequences are read in a child under ulimit -v (phase 5).
+var c39Shrinking = []string{"x-\u212a", "\u2126m", "\u1e9e-x", "\u212a"} // KELVIN SIGN 3->1, OHM SIGN 3->2, CAPITAL SHARP S 3->2
+
+// I WITH DOT ABOVE 2->3, A WITH STROKE 2->3, invalid UTF-8 1->3
+var c39Growing = []string{"\u0130", "x-\u023a", "caf\xe9", "\xff", "x\xc3", "\u0130stanbul"}
 
 func c39LowerChangesLen(name []byte) bool {
 	return len(strings.ToLower(string(name))) != len(name)
@@ -325,7 +335,7 @@ func c39LowerChangesLen(name []byte) bool {
 
 func c39Name(g *vkit.Rand, lenChanging bool) []byte {
 	if lenChanging {
-		return []byte(g.PickS(c39LenChanging))
+		return []byte(g.PickS(c39Shrinking))
 	}
 	tok := func(alpha string, n int) string {
 		b := make([]byte, n)
@@ -393,7 +403,7 @@ func c39Value(g *vkit.Rand) []byte {
 	}
 }
 
-func c39Headers(g *vkit.Rand, lenChanging bool) []hdesc {
+func c39Headers(g *vkit.Rand) []hdesc {
 	n := g.Intn(9)
 	switch g.Intn(40) {
 	case 0:
@@ -432,12 +442,6 @@ func c39Headers(g *vkit.Rand, lenChanging bool) []hdesc {
 			add(c39Name(g, false))
 		}
 	}
-	if lenChanging {
-		add(c39Name(g, true))
-		// put it at a random position
-		j := g.Intn(len(hs))
-		hs[j], hs[len(hs)-1] = hs[len(hs)-1], hs[j]
-	}
 	return hs
 }
 
@@ -455,9 +459,24 @@ func c39Sid(g *vkit.Rand) uint32 {
 
 var c39Types = []string{"syn_stream", "syn_reply", "headers", "rst_stream", "settings", "ping", "goaway", "window_update", "data"}
 
+// c39LenChangingFrame is a header frame whose only header has the given name
+// and one short non-empty value.
+func c39LenChangingFrame(g *vkit.Rand, name string) fdesc {
+	fd := fdesc{Type: c39Types[g.Intn(3)], StreamId: c39Sid(g), Priority: uint8(g.Intn(8))}
+	v := []byte("v")
+	if g.Bool() {
+		v = []byte(strings.Repeat("w", 1+g.Intn(100)))
+	}
+	fd.Headers = []hdesc{{Name: []byte(name), Values: [][]byte{v}}}
+	return fd
+}
+
 func c39Frame(g *vkit.Rand, lenChanging bool) fdesc {
+	if lenChanging {
+		return c39LenChangingFrame(g, g.PickS(c39Shrinking))
+	}
 	t := c39Types[g.Intn(len(c39Types))]
-	if lenChanging || g.Chance(1, 3) {
+	if g.Chance(1, 3) {
 		t = c39Types[g.Intn(3)]
 	}
 	fd := fdesc{Type: t}
@@ -471,13 +490,13 @@ func c39Frame(g *vkit.Rand, lenChanging bool) fdesc {
 		if g.Chance(1, 8) {
 			fd.Flags = uint8(g.Intn(256))
 		}
-		fd.Headers = c39Headers(g, lenChanging)
+		fd.Headers = c39Headers(g)
 	case "syn_reply", "headers":
 		fd.StreamId, fd.Flags = c39Sid(g), uint8(g.Intn(2))
 		if g.Chance(1, 8) {
 			fd.Flags = uint8(g.Intn(256))
 		}
-		fd.Headers = c39Headers(g, lenChanging)
+		fd.Headers = c39Headers(g)
 	case "rst_stream":
 		fd.StreamId, fd.Status = c39Sid(g), 1+uint32(g.Intn(11))
 		if g.Chance(1, 5) {
@@ -550,27 +569,27 @@ func c39ErrSig(err error) string {
 
 // c39RoundTrip writes the sequence through one Framer and reads it back
 // through another (one zlib context each way, shared by all frames).
-func c39RoundTrip(r *vkit.Run, st *c39Stats, w *c39RT) (wire []byte) {
+func c39RoundTrip(r *vkit.Run, st *c39Stats, w *c39RT) (wire []byte, ends []int) {
 	desc := func() interface{} { return w }
 	var buf bytes.Buffer
 	wf, err := bfe_spdy.NewFramer(&buf, nil)
 	if err != nil {
 		r.Inconclusive("NewFramer: " + err.Error())
-		return nil
+		return nil, nil
 	}
 	defer wf.ReleaseWriter()
 	written := make([]bfe_spdy.Frame, len(w.Frames))
-	ends := make([]int, len(w.Frames))
+	ends = make([]int, len(w.Frames))
 	for i := range w.Frames {
 		f := w.Frames[i].build()
 		var werr error
 		if r.Try(desc, func() { werr = wf.WriteFrame(f) }) {
-			return nil
+			return nil, nil
 		}
 		if werr != nil {
 			r.Violation("write:"+w.Frames[i].Type+":valid-frame-refused:"+c39ErrSig(werr),
 				fmt.Sprintf("WriteFrame(#%d %s) = %v", i, w.Frames[i].Type, werr), w)
-			return nil
+			return nil, nil
 		}
 		written[i] = f
 		ends[i] = buf.Len()
@@ -580,7 +599,7 @@ func c39RoundTrip(r *vkit.Run, st *c39Stats, w *c39RT) (wire []byte) {
 	rf, err := bfe_spdy.NewFramer(io.Discard, src)
 	if err != nil {
 		r.Inconclusive("NewFramer: " + err.Error())
-		return wire
+		return wire, ends
 	}
 	defer rf.ReleaseWriter()
 	fail := func(i int, shape, what string) {
@@ -595,11 +614,11 @@ func c39RoundTrip(r *vkit.Run, st *c39Stats, w *c39RT) (wire []byte) {
 		var got bfe_spdy.Frame
 		var rerr error
 		if r.Try(desc, func() { got, rerr = rf.ReadFrame() }) {
-			return wire
+			return wire, ends
 		}
 		if rerr != nil {
 			fail(i, "read-error:"+c39ErrSig(rerr), "ReadFrame error: "+rerr.Error())
-			return wire
+			return wire, ends
 		}
 		if d := c39Compare(&w.Frames[i], written[i], got); d != "" {
 			shape := "fields"
@@ -607,11 +626,11 @@ func c39RoundTrip(r *vkit.Run, st *c39Stats, w *c39RT) (wire []byte) {
 				shape = "headers"
 			}
 			fail(i, shape, d)
-			return wire
+			return wire, ends
 		}
 		if src.pos != ends[i] {
 			fail(i, "boundary", fmt.Sprintf("reader stands at byte %d, frame ends at %d", src.pos, ends[i]))
-			return wire
+			return wire, ends
 		}
 		atomic.AddInt64(&st.rtFrames, 1)
 		if len(w.Frames[i].Headers) > 0 {
@@ -621,12 +640,12 @@ func c39RoundTrip(r *vkit.Run, st *c39Stats, w *c39RT) (wire []byte) {
 	var got bfe_spdy.Frame
 	var rerr error
 	if r.Try(desc, func() { got, rerr = rf.ReadFrame() }) {
-		return wire
+		return wire, ends
 	}
 	if rerr != io.EOF || got != nil {
 		fail(len(w.Frames)-1, "trailing", fmt.Sprintf("after the last frame ReadFrame = (%T, %v), want (nil, EOF)", got, rerr))
 	}
-	return wire
+	return wire, ends
 }
 
 func c39GenRT(g *vkit.Rand, i int) *c39RT {
@@ -636,9 +655,8 @@ func c39GenRT(g *vkit.Rand, i int) *c39RT {
 		// the only class with names whose lower-casing changes the byte length
 		w.Class = "len-changing-name"
 		n := 1 + g.Intn(3)
-		k := g.Intn(n)
 		for j := 0; j < n; j++ {
-			w.Frames = append(w.Frames, c39Frame(g, j == k))
+			w.Frames = append(w.Frames, c39Frame(g, j == n-1)) // nothing may follow it, see c39Shrinking
 		}
 	case i%20 == 13:
 		// one incompressible value whose size sweeps so that the compressed
@@ -943,14 +961,56 @@ func c39GenHostile(g *vkit.Rand, zhdr []byte, giant uint32) *c39Hostile {
 	return h
 }
 
-func c39Mutate(g *vkit.Rand, wire []byte) []byte {
+// c39Mutate damages the wire bytes of a written sequence. Bytes inside a
+// compressed header block are never altered and the top byte of a frame
+// length stays 0: what those decode to cannot be bounded beforehand, and this
+// runs on 16 goroutines (crafted blocks cover hostile header content with
+// controlled announcements; a truncated block is safe because it inflates to a
+// prefix of the genuine content).
+func c39Mutate(g *vkit.Rand, wire []byte, frames []fdesc, ends []int) []byte {
 	b := append([]byte{}, wire...)
 	if len(b) == 0 {
 		return b
 	}
+	allowed := func(p int) bool {
+		start := 0
+		for i, e := range ends {
+			if p < e {
+				off := p - start
+				if off == 5 {
+					return false
+				}
+				switch frames[i].Type {
+				case "syn_stream":
+					return off < 18
+				case "syn_reply", "headers":
+					return off < 12
+				}
+				return true
+			}
+			start = e
+		}
+		return false
+	}
+	switch g.Intn(10) {
+	case 0, 1:
+		return b[:g.Intn(len(b))]
+	case 2:
+		i := g.Intn(len(b))
+		if !allowed(i) {
+			return b[:i]
+		}
+		return append(b[:i:i], append(g.Bytes(1+g.Intn(4)), wire[i:]...)...)
+	}
 	for k := 1 + g.Intn(3); k > 0; k-- {
 		i := g.Intn(len(b))
-		switch g.Intn(6) {
+		for tries := 0; tries < 20 && !allowed(i); tries++ {
+			i = g.Intn(len(b))
+		}
+		if !allowed(i) {
+			return b[:i]
+		}
+		switch g.Intn(4) {
 		case 0:
 			b[i] ^= 1 << uint(g.Intn(8))
 		case 1:
@@ -959,13 +1019,6 @@ func c39Mutate(g *vkit.Rand, wire []byte) []byte {
 			b[i]--
 		case 3:
 			b[i] = byte(g.Intn(256))
-		case 4:
-			b = b[:i]
-		case 5:
-			b = append(b[:i], append(g.Bytes(1+g.Intn(4)), b[i:]...)...)
-		}
-		if len(b) == 0 {
-			break
 		}
 	}
 	return b
@@ -1174,19 +1227,19 @@ func c39Child() {
 	os.Exit(0)
 }
 
-// c39RunChild executes one giant-announcement case in a child limited to
-// 2 GiB of address space.
-func c39RunChild(r *vkit.Run, st *c39Stats, h *c39Hostile, shape string, idx int) {
+// c39ExecChild reads one stream in a child limited to 2 GiB of address
+// space. oom reports that the child died with a fatal out-of-memory error.
+func c39ExecChild(r *vkit.Run, st *c39Stats, h *c39Hostile, idx int) (res *c39ChildResult, oom bool, stderrTail string, ok bool) {
 	dir := os.Getenv("VERIF_SCRATCH")
 	if dir == "" {
-		r.Inconclusive("VERIF_SCRATCH unset: giant-announcement cases need a scratch directory for the child process")
-		return
+		r.Inconclusive("VERIF_SCRATCH unset: giant-allocation cases need a scratch directory for the child process")
+		return nil, false, "", false
 	}
 	path := filepath.Join(dir, fmt.Sprintf("c39-child-%d.json", idx))
 	b, _ := json.Marshal(h)
 	if err := os.WriteFile(path, b, 0o644); err != nil {
 		r.Inconclusive("cannot write child case: " + err.Error())
-		return
+		return nil, false, "", false
 	}
 	defer os.Remove(path)
 	r.WriteAhead(h)
@@ -1203,21 +1256,34 @@ func c39RunChild(r *vkit.Run, st *c39Stats, h *c39Hostile, shape string, idx int
 		}
 		if strings.Contains(tail, "out of memory") || strings.Contains(tail, "cannot allocate memory") {
 			st.childOOM++
-			r.Violation("alloc:header-"+shape+"-unbounded",
-				fmt.Sprintf("child limited to 2 GiB of address space died with a fatal out-of-memory error while reading a %d-byte stream", len(h.Stream)),
-				map[string]interface{}{"case": h, "child_stderr": tail})
-			return
+			return nil, true, tail, true
 		}
 		r.Inconclusive(fmt.Sprintf("child failed without an out-of-memory report: %v: %s", err, tail))
-		return
+		return nil, false, tail, false
 	}
-	var res c39ChildResult
-	if err := json.Unmarshal(bytes.TrimSpace(stdout.Bytes()), &res); err != nil {
+	res = &c39ChildResult{}
+	if err := json.Unmarshal(bytes.TrimSpace(stdout.Bytes()), res); err != nil {
 		r.Inconclusive("child output unparsable: " + stdout.String())
-		return
+		return nil, false, "", false
 	}
 	if res.Panic != "" {
 		r.Violation("panic:child:"+res.Panic, "ReadFrame panicked in the child: "+res.Panic, h)
+		return nil, false, "", false
+	}
+	return res, false, "", true
+}
+
+// c39RunChild executes one giant-announcement case in a child and applies the
+// allocation bound to what the child measured.
+func c39RunChild(r *vkit.Run, st *c39Stats, h *c39Hostile, shape string, idx int) {
+	res, oom, tail, ok := c39ExecChild(r, st, h, idx)
+	if !ok {
+		return
+	}
+	if oom {
+		r.Violation("alloc:header-"+shape+"-unbounded",
+			fmt.Sprintf("child limited to 2 GiB of address space died with a fatal out-of-memory error while reading a %d-byte stream", len(h.Stream)),
+			map[string]interface{}{"case": h, "child_stderr": tail})
 		return
 	}
 	for _, f := range res.Frames {
@@ -1227,6 +1293,49 @@ func c39RunChild(r *vkit.Run, st *c39Stats, h *c39Hostile, shape string, idx int
 			return
 		}
 	}
+}
+
+// c39RunGrowing writes [frames..., frame with a name that grows when
+// lower-cased, PING] with the real writer and has a child read it back: every
+// frame must be returned without error.
+func c39RunGrowing(r *vkit.Run, st *c39Stats, w *c39RT, idx int) {
+	var buf bytes.Buffer
+	wf, err := bfe_spdy.NewFramer(&buf, nil)
+	if err != nil {
+		r.Inconclusive(err.Error())
+		return
+	}
+	for i := range w.Frames {
+		if werr := wf.WriteFrame(w.Frames[i].build()); werr != nil {
+			r.Violation("write:"+w.Frames[i].Type+":valid-frame-refused:"+c39ErrSig(werr), werr.Error(), w)
+			wf.ReleaseWriter()
+			return
+		}
+	}
+	wf.ReleaseWriter()
+	h := &c39Hostile{Stream: append([]byte{}, buf.Bytes()...), Delivery: w.Delivery, Seed: w.ChunkSeed, Origin: "written-growing-name"}
+	res, oom, tail, ok := c39ExecChild(r, st, h, idx)
+	if !ok {
+		return
+	}
+	wit := map[string]interface{}{"frames": w.Frames, "delivery": w.Delivery, "chunk_seed": w.ChunkSeed, "class": w.Class, "child_stderr": tail}
+	if oom {
+		r.Violation("roundtrip:name-lowercasing-changes-byte-length",
+			"reading back what the writer produced killed the child (2 GiB address space) with a fatal out-of-memory error", wit)
+		return
+	}
+	if len(res.Frames) < len(w.Frames) {
+		r.Violation("roundtrip:name-lowercasing-changes-byte-length", fmt.Sprintf("only %d of %d frames read back", len(res.Frames), len(w.Frames)), wit)
+		return
+	}
+	for i := range w.Frames {
+		if res.Frames[i].Err != "" {
+			r.Violation("roundtrip:name-lowercasing-changes-byte-length",
+				fmt.Sprintf("frame #%d (%s) written by the framer is read back as error %q (allocated %d bytes)", i, w.Frames[i].Type, res.Frames[i].Err, res.Frames[i].Delta), wit)
+			return
+		}
+	}
+	atomic.AddInt64(&st.rtFrames, int64(len(w.Frames)))
 }
 
 // c39GiantCase is a single SYN_REPLY whose first header announces a name or
@@ -1306,17 +1415,29 @@ func c39(r *vkit.Run) {
 		}
 		var w c39RT
 		r.LoadReplay(&w)
+		if w.Class == "growing-name" {
+			c39RunGrowing(r, st, &w, 0)
+			return
+		}
 		c39RoundTrip(r, st, &w)
 		return
 	}
 
+	t0 := time.Now()
+	phase := func(name string) {
+		fmt.Fprintf(os.Stderr, "c39: %s done at %.1fs\n", name, time.Since(t0).Seconds())
+	}
 	// ---- phase 1+2a (parallel): round trips, each followed by mutations of its wire bytes
-	nRT := r.N(40000, 1200000)
+	div := 1
+	if d := os.Getenv("VERIF_C39_DEV_DIV"); d != "" { // development only: smaller run
+		fmt.Sscan(d, &div)
+	}
+	nRT := r.N(40000, 1200000) / div
 	nMutPer := 2
 	vkit.Parallel(nRT, 0, func(i int) {
 		g := r.Rng("rt", i)
 		w := c39GenRT(g, i)
-		wire := c39RoundTrip(r, st, w)
+		wire, ends := c39RoundTrip(r, st, w)
 		atomic.AddInt64(&st.rtSeq, 1)
 		nt := false
 		for _, f := range w.Frames {
@@ -1335,14 +1456,15 @@ func c39(r *vkit.Run) {
 			return
 		}
 		for k := 0; k < nMutPer; k++ {
-			h := &c39Hostile{Stream: c39Mutate(g, wire), Delivery: g.Intn(3), Seed: g.U64(), Origin: "mutated"}
+			h := &c39Hostile{Stream: c39Mutate(g, wire, w.Frames, ends), Delivery: g.Intn(3), Seed: g.U64(), Origin: "mutated"}
 			c39ReadHostile(r, st, h, false)
 			r.Case(vkit.Hash64("mut", string(h.Stream), fmt.Sprint(h.Delivery)), true)
 		}
 	})
 
+	phase("roundtrip+mutations")
 	// ---- phase 2b (parallel): crafted hostile streams, announcements <= 1 MiB
-	nCraft := r.N(60000, 1500000)
+	nCraft := r.N(60000, 1500000) / div
 	vkit.Parallel(nCraft, 0, func(i int) {
 		g := r.Rng("craft", i)
 		h := c39GenHostile(g, zhdr, 1<<20)
@@ -1356,8 +1478,9 @@ func c39(r *vkit.Run) {
 		r.Case(vkit.Hash64("craft", string(h.Stream), fmt.Sprint(h.Delivery)), nt)
 	})
 
+	phase("crafted")
 	// ---- phase 3 (single goroutine): allocation bound on crafted streams and on valid sequences
-	nAlloc := r.N(12000, 200000)
+	nAlloc := r.N(12000, 200000) / div
 	for i := 0; i < nAlloc; i++ {
 		g := r.Rng("alloc", i)
 		var h *c39Hostile
@@ -1392,6 +1515,7 @@ func c39(r *vkit.Run) {
 		r.Case(vkit.Hash64("alloc", string(h.Stream), fmt.Sprint(h.Delivery)), true)
 	}
 
+	phase("alloc")
 	// ---- phase 4 (children): announcements of 2^30 .. 2^32-1 bytes
 	idx := 0
 	for _, typ := range []uint16{1, 2, 8} {
@@ -1408,6 +1532,23 @@ func c39(r *vkit.Run) {
 		}
 	}
 
+	// ---- phase 5 (children): names that GROW when lower-cased, written by the real writer
+	for k, name := range c39Growing {
+		reps := r.N(1, 4)
+		for j := 0; j < reps; j++ {
+			g := r.Rng("growing", k, j)
+			w := &c39RT{Delivery: g.Intn(3), ChunkSeed: g.U64(), Class: "growing-name"}
+			if j%2 == 1 {
+				w.Frames = append(w.Frames, c39Frame(g, false))
+			}
+			w.Frames = append(w.Frames, c39LenChangingFrame(g, name), fdesc{Type: "ping", Id: 7})
+			c39RunGrowing(r, st, w, idx)
+			idx++
+			atomic.AddInt64(&st.rtLenChangingSeq, 1)
+			r.Case(vkit.Hash64("growing", name, fmt.Sprint(j)), true)
+		}
+	}
+	phase("children")
 	r.Count("roundtrip_sequences", st.rtSeq)
 	r.Count("roundtrip_frames_equal", st.rtFrames)
 	r.Count("roundtrip_header_frames_equal", st.rtHeaderFrames)
